@@ -23,7 +23,7 @@ def main() -> int:
     rnd = 'r4'
     if args[:1] == ['--round']:
         rnd, args = args[1], args[2:]
-    tag = {'r4': 'G', 'r5': 'H'}[rnd]
+    tag = {'r4': 'G', 'r5': 'H', 'r6': 'J'}[rnd]
     props = args
     pairs = []
     for b in sorted((HERE / 'seeded').glob(f'C??-{rnd}-?')):
